@@ -322,9 +322,15 @@ func c15WriteFaults(c *vfeng.Ctx) {
 
 // ---- (b) histories + (c) faults
 
+type c15SigModel struct {
+	data string
+	exp  time.Time
+}
+
 type c15Sys struct {
 	w     *vfWorld
 	ver   map[string]int
+	sig   map[string]*c15SigModel // what UpsertSigned was last told, per user (nil: not known)
 	c     *vfeng.Ctx
 	hist  []string
 	depth int
@@ -333,11 +339,12 @@ type c15Sys struct {
 func (s *c15Sys) Reset() {
 	s.w = vfNewWorld(vfOpts{CertBackends: []string{"password"}, WebUIBackends: []string{"password"}})
 	s.ver = map[string]int{}
+	s.sig = map[string]*c15SigModel{}
 	s.hist = nil
 }
 func (s *c15Sys) Close() { s.w.Close() }
 func (s *c15Sys) Ops() []string {
-	return []string{"save(u1)", "save(u2)", "delete(u1)", "delete(u2)", "upsert(u1)", "upsert(u2)", "delsigned(u1)", "tick(97h)", "sync"}
+	return []string{"save(u1)", "save(u2)", "delete(u1)", "delete(u2)", "upsert(u1)", "upsert(u2)", "delsigned(u1)", "tick(97h)", "tick(50h)", "getsigned(u1)", "sync"}
 }
 func (s *c15Sys) Canon() string {
 	st := s.w.state
@@ -353,10 +360,28 @@ func (s *c15Sys) Canon() string {
 		cs, cin := ca.Signed[k]
 		pexp, cexp := false, false
 		var e int64
+		rem := int64(-9)
 		if pin {
 			fmt.Sscanf(ps[strings.IndexByte(ps, ':')+1:], "%d", &e)
 			pexp = e <= vclock.Now().Unix()
+			// how long it has left, in 50-hour buckets: a refreshed record is another state
+			if rem = (e - vclock.Now().Unix()) / (50 * 3600); rem > 2 {
+				rem = 2
+			} else if rem < -1 {
+				rem = -1
+			}
 		}
+		// ... and what the model expects it to have left (if the store kept an old expiry
+		// the two differ, and the state must not be merged with the one before the write)
+		mrem := int64(-9)
+		if m := s.sig[u]; m != nil && m.data != "" {
+			if mrem = (m.exp.Unix() - vclock.Now().Unix()) / (50 * 3600); mrem > 2 {
+				mrem = 2
+			} else if mrem < -1 {
+				mrem = -1
+			}
+		}
+		fmt.Fprintf(&sb, "rem%d/%d;", rem, mrem)
 		if cin {
 			fmt.Sscanf(cs[strings.IndexByte(cs, ':')+1:], "%d", &e)
 			cexp = e <= vclock.Now().Unix()
@@ -383,16 +408,41 @@ func (s *c15Sys) Apply(op string) (string, string, string) {
 		return "ok", "", ""
 	case strings.HasPrefix(op, "delete("):
 		vfMust(st.DeleteUserProfile(arg))
+		delete(s.sig, arg) // the statement does not say what happens to the user's signed records
 		return "ok", "", ""
 	case strings.HasPrefix(op, "upsert"):
 		s.ver["s"+arg]++
-		vfMust(st.UpsertSigned(arg, 3, vclock.Now().Add(96*time.Hour).Unix(), fmt.Sprintf("data-%d", s.ver["s"+arg])))
+		exp := vclock.Now().Add(96 * time.Hour)
+		data := fmt.Sprintf("data-%d", s.ver["s"+arg])
+		vfMust(st.UpsertSigned(arg, 3, exp.Unix(), data))
+		s.sig[arg] = &c15SigModel{data, exp}
 		return "ok", "", ""
 	case strings.HasPrefix(op, "delsigned"):
 		vfMust(st.DeleteSigned(arg, 3))
+		s.sig[arg] = &c15SigModel{"", time.Time{}}
 		return "ok", "", ""
+	case strings.HasPrefix(op, "getsigned"):
+		// an unexpired signed record reads back as it was last written, an expired or
+		// deleted one does not read back
+		ok, data, err := st.GetSigned(arg, 3)
+		m := s.sig[arg]
+		if err != nil || m == nil {
+			return fmt.Sprintf("read ok=%v err=%v (model silent)", ok, err != nil), "", ""
+		}
+		want := m.data != "" && m.exp.After(vclock.Now())
+		switch {
+		case want && (!ok || data != m.data):
+			return "read", "C15|signed-record-lost|GetSigned", fmt.Sprintf("the record last written for %s (%q, valid until %d, now %d) reads back as ok=%v %q", arg, m.data, m.exp.Unix(), vclock.Now().Unix(), ok, data)
+		case !want && ok:
+			return "read", "C15|signed-record-outlives|GetSigned", fmt.Sprintf("a deleted or expired record of %s reads back as %q", arg, data)
+		}
+		return fmt.Sprintf("read present=%v", ok), "", ""
 	case strings.HasPrefix(op, "tick"):
-		vclock.Advance(97 * time.Hour)
+		d, _ := time.ParseDuration(arg)
+		if d == 0 {
+			d = 97 * time.Hour
+		}
+		vclock.Advance(d)
 		return "ok", "", ""
 	case op == "sync":
 		// (c) before the real sync: every fault point of this very synchronisation
@@ -806,7 +856,7 @@ func init() {
 	vfRegister(&vfeng.Check{
 		ID:    "C15",
 		Level: "fault_enumeration",
-		Rule:  "(f) a data set larger than the page cache of one sqlite connection (24 users x 160 kB, all changed, half removed): a fault at the first, the last four and every 9th SQL operation of the synchronisation on either connection, as error and as crash, leaves the cache at its previous or its new content; the databases are opened through the repository's own initFileDBSQLite; (a') three users whose names differ only in case: profiles, signed records, user list and deletion in the primary and, after a synchronisation, in the cache; (a'') an error injected at EVERY SQL operation of SaveUserProfile (existing and new user), DeleteUserProfile, UpsertSigned and DeleteSigned on the primary: success reported => new content stored, failure => previous or new content; (a) every profile shape (empty, nil/empty maps, 1-3 U2F registrations with real attestation certificates, TOTP entries, pending registration/TOTP secret, bootstrap OTP, WebAuthn credential + session data, 10 kB display name) saved, read back from the primary, synchronised and read back from the cache during an outage; (b) BFS with canonical-state deduplication over {save/delete user, upsert/delete signed record, tick 97h, sync} for two users on the real storage functions, comparing cache and primary after every completed synchronisation; (c) for every synchronisation reached at history depth <= 3 (thorough 4): a fault (error, and crash = connection abort + reopen) injected at EVERY SQL operation of copyDBIntoSQLite on the source and on the destination connection - cache content must equal the previous or the complete new content; (d) every route x {GET,POST} with an admitted credential against a healthy twin, a twin whose primary is unreachable and a twin whose primary does not answer reads but takes writes (outage ending inside the request), and for authentication routes a twin whose primary refuses every operation at once with the production read timeout (virtual time advanced while the request waits); plus deployments with self-service bootstrap OTP: login of a user with/without devices via form and basic-auth in the three modes, with a recording mail sender (differential oracle)",
+		Rule:  "signed records: reading back (GetSigned) against a model of what UpsertSigned / DeleteSigned were last told, with 50 h and 97 h ticks; (f) a data set larger than the page cache of one sqlite connection (24 users x 160 kB, all changed, half removed): a fault at the first, the last four and every 9th SQL operation of the synchronisation on either connection, as error and as crash, leaves the cache at its previous or its new content; the databases are opened through the repository's own initFileDBSQLite; (a') three users whose names differ only in case: profiles, signed records, user list and deletion in the primary and, after a synchronisation, in the cache; (a'') an error injected at EVERY SQL operation of SaveUserProfile (existing and new user), DeleteUserProfile, UpsertSigned and DeleteSigned on the primary: success reported => new content stored, failure => previous or new content; (a) every profile shape (empty, nil/empty maps, 1-3 U2F registrations with real attestation certificates, TOTP entries, pending registration/TOTP secret, bootstrap OTP, WebAuthn credential + session data, 10 kB display name) saved, read back from the primary, synchronised and read back from the cache during an outage; (b) BFS with canonical-state deduplication over {save/delete user, upsert/delete signed record, tick 97h, sync} for two users on the real storage functions, comparing cache and primary after every completed synchronisation; (c) for every synchronisation reached at history depth <= 3 (thorough 4): a fault (error, and crash = connection abort + reopen) injected at EVERY SQL operation of copyDBIntoSQLite on the source and on the destination connection - cache content must equal the previous or the complete new content; (d) every route x {GET,POST} with an admitted credential against a healthy twin, a twin whose primary is unreachable and a twin whose primary does not answer reads but takes writes (outage ending inside the request), and for authentication routes a twin whose primary refuses every operation at once with the production read timeout (virtual time advanced while the request waits); plus deployments with self-service bootstrap OTP: login of a user with/without devices via form and basic-auth in the three modes, with a recording mail sender (differential oracle)",
 		Assumptions: []string{"only the sqlite flavour of the storage layer is executed (no PostgreSQL in the sandbox)", "a crash is modelled as loss of the connection's uncommitted work followed by reopening the files; sqlite's own atomic-commit machinery is trusted", "an outage is modelled as in the repository's own tests: the primary's read timeout has already elapsed (remoteDBQueryTimeout=0) and every statement on it fails"},
 		Bounds: func(tier string) map[string]interface{} {
 			d, fd := 4, 3
@@ -843,6 +893,9 @@ func init() {
 			}
 			st := vfeng.Explore(sub, &c15Sys{c: sub, depth: fd}, d, 0)
 			c.Count("max_depth", int64(st.MaxDepth))
+			// and from a non-initial state: a signed record written 50 hours ago (a
+			// refresh of it, its expiry and its mirroring are then within the depth)
+			vfeng.ExploreFrom(sub, &c15Sys{c: sub, depth: 0}, []string{"upsert(u1)", "tick(50h)"}, d-1, 0)
 		},
 		Replay: func(c *vfeng.Ctx, raw json.RawMessage) (bool, string) {
 			var h struct {
